@@ -13,17 +13,20 @@ HARNESSES = {
 _DOMS = ["C", "NNC", "BDS", "BOX"]      # C_Polyhedron, NNC_Polyhedron, BD_Shape<mpq_class>, Rational_Box
 
 def _runs(tier):
-    if tier == "quick":
-        return [{"harness": "powerset", "args": ["--dom", d, "--depth", "3", "--menu", "8", "--dims", "1,2"], "budget": 270} for d in _DOMS]
     runs = []
+    if tier == "quick":
+        for d in _DOMS:
+            runs.append({"harness": "powerset", "args": ["--dom", d, "--depth", "3", "--menu", "8", "--dims", "2"], "budget": 270})
+            runs.append({"harness": "powerset", "args": ["--dom", d, "--depth", "3", "--menu", "8", "--dims", "1"], "budget": 270})
+        return runs
     for d in _DOMS:
-        runs.append({"harness": "powerset", "args": ["--dom", d, "--depth", "4", "--menu", "8", "--dims", "2"], "budget": 2400})
-        runs.append({"harness": "powerset", "args": ["--dom", d, "--depth", "4", "--menu", "12", "--dims", "1", "--full-slot1"], "budget": 2400})
+        runs.append({"harness": "powerset", "args": ["--dom", d, "--depth", "4", "--menu", "8", "--dims", "2"], "budget": 2500})
+        runs.append({"harness": "powerset", "args": ["--dom", d, "--depth", "4", "--menu", "12", "--dims", "1", "--full-slot1"], "budget": 2500})
     return runs
 
 CHECKS = {
-    "C09": {"runs": _runs, "level": "model_checking", "parallel_runs": 4,
-            "deadline": {"quick": 290, "thorough": 2600},
+    "C09": {"runs": _runs, "level": "model_checking", "parallel_runs": 8,
+            "deadline": {"quick": 290, "thorough": 2700},
             "assumptions": [
                 "the base-level domains are trusted to describe their own point sets: the model value of a powerset is the union of the cells read from each disjunct's constraints()",
                 "Pointset_Powerset<Grid> is not explored (no lattice reference was available when this check was written)",
